@@ -473,6 +473,13 @@ func (w *Worktree) AddGlob(pattern string) error {
 
 	var saveIndex bool
 	for _, file := range files {
+		// A pattern such as "*" also matches the repository directory of a
+		// regular (non-bare) worktree; it is never part of the worktree
+		// content and the worktree filesystem refuses to stat it.
+		if file == GitDirName {
+			continue
+		}
+
 		fi, err := w.filesystem.Lstat(file)
 		if err != nil {
 			return err
